@@ -35,6 +35,11 @@ def main(argv=None) -> int:
             from . import setorder
             setorder.install(pre["prefixes"], pre.get("own_ids", False))
         mod = importlib.import_module(f"vmc.props.{prop.lower()}")
+        import logging
+        lg = logging.getLogger("xsdata")  # the library's warnings ("Unassigned parsed object ...") are not part of a check's output
+        if not lg.handlers:
+            lg.addHandler(logging.NullHandler())
+        lg.propagate = False
         if a.replay:
             if hasattr(mod, "replay"):
                 return mod.replay(a.replay)
